@@ -39,7 +39,10 @@ CHECKS = {
              "inference table, the KeyError skip with its side effect, adjacency-order iteration). Theorems about the relation loop: at "
              "most one edge per relation and it carries that relation (c14_step_edges), the edges' relations form a sublist of the "
              "relations (nothing duplicated or invented, c14_edges_sublist, c14_edge_count), a relation lacking one of its first two "
-             "arguments changes nothing (c14_no_endpoint_no_change), one node per identifier (c14_endpoint_reuses); table obligations "
+             "arguments changes nothing (c14_no_endpoint_no_change), one node per identifier (c14_endpoint_reuses); and exactly: c14_one_edge "
+             "(a relation with both endpoints present and inferable positions gets ONE edge, from a node carrying its first argument to a node "
+             "carrying its second, carrying the relation; the node map stays sound, graphStep_mapOk) and c14_edges_exact (in a document "
+             "without influence relations the edges are exactly the relations with both endpoints, once each, in order); table obligations c14_inferable, "
              "t_inferred_class, t_only_influence_uninferable. Node list, edge list and the converted-back document of the real "
              "MultiDiGraph are compared with the model and with an independent specification computed from the unified document.",
         note=A_COMMON + " networkx is assumed to be a node set + edge multiset with adjacency-order iteration (A-EXT). Influence relations "
